@@ -74,6 +74,7 @@ type VC struct {
 	houdiniCheck bool
 	err      error
 	autoKept []string
+	topVals  map[ssa.Value]Term
 }
 
 func (vc *VC) fresh(base string) string {
